@@ -17,6 +17,7 @@ import weakref
 from .lib import ATHLIB_DIR
 
 WATCHDOG = 0.05
+UNTRACED_TAIL = True
 _real_Lock, _real_RLock = threading.Lock, threading.RLock
 _ALL_LOCKS = weakref.WeakSet()
 _current = threading.local()          # .run / .tid of the scheduled thread we are in
@@ -125,7 +126,7 @@ def cooperative_locks(prefix='athlib'):
 
 
 class Run(object):
-    def __init__(self, thunks, schedule, first=0, record_lines=False):
+    def __init__(self, thunks, schedule, first=0, record_lines=False, probe=None, untraced_tail=None):
         self.thunks = thunks
         self.n = len(thunks)
         self.schedule = list(schedule)        # [(tid, index, target)]
@@ -139,6 +140,12 @@ class Run(object):
         self.first = first
         self.switches = []
         self.lines = [[] for _ in thunks] if record_lines else None
+        # once the last pre-emption of the schedule has happened nothing remains to be decided: tracing is switched off for
+        # the rest of the run (new frames run untraced), so that interpreter-level accounting that differs under a tracer -
+        # recursion depth above all - is that of an ordinary program where it matters
+        self.untraced_tail = UNTRACED_TAIL if untraced_tail is None else untraced_tail
+        self.probe = probe                  # callable sampled at every yield point (process-wide settings), record mode only
+        self.probes = [[] for _ in thunks] if probe else None
         self.lock = threading.Lock()
         self.finished = threading.Event()
         self.blocked_yields = 0
@@ -160,11 +167,19 @@ class Run(object):
     def _yield_point(self, tid, frame):
         if self.free:
             return
+        if self.untraced_tail and self.pos >= len(self.schedule) and self.lines is None and self.probes is None:
+            sys.settrace(None)
+            return
         idx = self.counts[tid]
         self.counts[tid] = idx + 1
         self.progress += 1
         if self.lines is not None:
             self.lines[tid].append((frame.f_code.co_name, frame.f_lineno))
+        if self.probes is not None:
+            try:
+                self.probes[tid].append(self.probe())
+            except Exception:
+                self.probes[tid].append(None)
         if self.pos < len(self.schedule):
             s = self.schedule[self.pos]
             if s[0] == tid and s[1] == idx:
@@ -244,8 +259,18 @@ class Run(object):
         return self.results
 
 
-def solo(thunk, record_lines=False):
-    """Run one thunk alone under the tracer: (result, number of yield points[, lines])."""
-    r = Run([thunk], [], record_lines=record_lines)
+def solo(thunk, record_lines=False, probe=None):
+    """Run one thunk alone under the tracer: (result, number of yield points[, lines]); with `probe`, the lines slot holds
+    (lines, probe values per yield point)."""
+    r = Run([thunk], [], record_lines=record_lines, probe=probe, untraced_tail=False)      # fully traced: counts the yield points
     res = r.run()
+    if probe:
+        return res[0], r.counts[0], (r.lines[0] if record_lines else None, r.probes[0])
     return res[0], r.counts[0], (r.lines[0] if record_lines else None)
+
+
+def solo_result(thunk):
+    """The outcome of the thunk run alone in a scheduled thread (tracing off from its first line, as in the tail of every
+    scheduled run): what the scheduled outcomes are compared with."""
+    r = Run([thunk], [], untraced_tail=True)
+    return r.run()[0]
